@@ -440,5 +440,9 @@ pub fn run(args: &Args) -> Report {
         }
         run_case(&mut rep, case, &mut rng, None);
     }
+    // whole modules: which data type and conversion each carrier is tested against (record layout of the deposit's name,
+    // FNC_VALUES / AXIS_PTS_X..5 by position, first item of a duplicated name) - ordered report list with exact limits
+    // against the structural model of checker.rs (Model/Checker.lean, Props/C12Struct.lean)
+    crate::c11full::run_family(&mut rep, &mut rng, if args.thorough { 4000 } else { 400 });
     rep
 }
